@@ -16,6 +16,8 @@ func init() {
 		Explain: "C15.1 every narrowing integer conversion (to uint8/uint16) in the registration-channel encoders is value-preserving: masked/shifted extraction, dominated by an upper bound, or followed by the round-trip test with a failing edge that leaves the function — so an encoder rejects what it cannot represent instead of truncating a length; " +
 			"C15.2 sibling agreement: each obfuscator's Obfuscate and TryReveal slice the shared-secret hash at identical constant bounds, the representative masks are complementary on the same byte, the header split is 32 on both sides; the one- and two-byte length prefixes are read back at the width they were written; " +
 			"C15.3 each randomised Obfuscate fills its ephemeral secret from crypto/rand on every path to its use; " +
+			"C15.8 TryReveal (and the package helpers it hands the ciphertext to) never writes into its ciphertext argument: no store, copy, append to a re-slice, or crypto destination (AEAD.Open/Seal dst, XORKeyStream dst) that is input storage; " +
+			"C15.9 every function of the DNS registrar that parses a reader with binary.Read / io.ReadFull reads all its sized fields that way (no single Read on the same reader); " +
 			"C15.4 every dns.Name placed in a Question/RR by requester/responder comes from NewName/ParseName, a parsed message or the empty name. " +
 			"Decides representability and layout agreement structurally; the round trips themselves for all payloads/keys and the Noise exchange are not decided.",
 		Assume: []string{"crypto and encoding libraries behave as documented", "XORObfuscator's empty-payload asymmetry is a value-level case outside these rules (DESIGN section 6)"}})
@@ -196,6 +198,107 @@ func checkC15(c *Ctx) {
 		})
 		r.Check(okW && wAdd == m.width, "C15.2", fmt.Sprintf("msgformat: %s/%s use a %d-byte prefix on both sides", m.add, m.rem, m.width), rem.Pos(), fnName(rem), fmt.Sprintf("encoder prefix %d byte(s); decoder returns p[%d:%d+length]", wAdd, m.width, m.width),
 			"the decoder does not skip/measure the prefix at the width the encoder writes: the payload is shifted or cut")
+	}
+
+	// ---- C15.8 a reveal attempt leaves the wire bytes as they were: the station tries every key on the same bytes
+	r.Rule("C15.8", "TryReveal never writes into its ciphertext argument", 4)
+	for _, typ := range []string{"GCMObfuscator", "CTRObfuscator", "XORObfuscator", "NilObfuscator"} {
+		f := c.fn("C15.8", "pkg/transports", typ, "TryReveal")
+		if f == nil {
+			continue
+		}
+		bad := false
+		scope := []*ssa.Function{f}
+		// helpers of the package that are handed (part of) the ciphertext
+		eachInstr(f, func(in ssa.Instruction) {
+			if ci, ok := in.(ssa.CallInstruction); ok {
+				if h := helperCallee(f, ci.Common()); h != nil {
+					for _, a := range ci.Common().Args {
+						if inputDerived(a, 0, map[ssa.Value]bool{}) {
+							scope = append(scope, h)
+							break
+						}
+					}
+				}
+			}
+		})
+		for _, g := range scope {
+			eachInstr(g, func(in ssa.Instruction) {
+				if why := writesInput(g, in); why != "" {
+					bad = true
+					r.Bad("C15.8", typ+".TryReveal: "+fnName(g)+" writes into its input", in.Pos(), fnName(g),
+						why+": the caller offers the same wire bytes to the next station key (and keeps them for the other transports), so after one refused key the matching key no longer reveals the tag")
+				}
+			})
+		}
+		if !bad {
+			r.OK("C15.8", typ+".TryReveal: the ciphertext is only read", f.Pos(), fmt.Sprintf("%d function(s) scanned for stores, copy, append-to-reslice and crypto destination arguments", len(scope)))
+		}
+	}
+
+	// ---- C15.9 a length-delimited field is read whole: a reader that is parsed with fixed-size reads (binary.Read,
+	// io.ReadFull) is never asked for a field with one plain Read, which may return fewer bytes than the field has
+	r.Rule("C15.9", "length-delimited fields are read with a filling read, never a single Read", 5)
+	{
+		unwrap := func(v ssa.Value) ssa.Value {
+			for {
+				switch x := v.(type) {
+				case *ssa.MakeInterface:
+					v = x.X
+					continue
+				case *ssa.ChangeInterface:
+					v = x.X
+					continue
+				}
+				return v
+			}
+		}
+		nFraming := 0
+		for _, f := range c.funcsOfPkgs(dnsPkgs...) {
+			framed := map[ssa.Value]bool{}
+			eachInstr(f, func(in ssa.Instruction) {
+				if ci, ok := in.(ssa.CallInstruction); ok {
+					switch calleeName(ci.Common()) {
+					case "encoding/binary.Read", "io.ReadFull", "io.ReadAtLeast":
+						rd := unwrap(ci.Common().Args[0])
+						if _, isGlobal := rd.(*ssa.UnOp); isGlobal && strings.Contains(pathOf(rd), "rand.Reader") {
+							return
+						}
+						framed[rd] = true
+					}
+				}
+			})
+			if len(framed) == 0 {
+				continue
+			}
+			nFraming++
+			bad := false
+			eachInstr(f, func(in ssa.Instruction) {
+				ci, ok := in.(ssa.CallInstruction)
+				if !ok {
+					return
+				}
+				cc := ci.Common()
+				var recv ssa.Value
+				if cc.IsInvoke() && cc.Method.Name() == "Read" {
+					recv = cc.Value
+				} else if cal := cc.StaticCallee(); cal != nil && cal.Name() == "Read" && cal.Signature.Recv() != nil && len(cc.Args) == 2 {
+					recv = cc.Args[0]
+				}
+				if recv == nil || !framed[unwrap(recv)] {
+					return
+				}
+				bad = true
+				r.Bad("C15.9", fnName(f)+": field read with a single Read from "+firstN(pathOf(recv), 40), in.Pos(), fnName(f),
+					"the reader is parsed as a sequence of sized fields, but this field is requested with one Read call, which returns what has arrived so far: a message delivered in pieces is cut short and the rest is parsed as the next length prefix")
+			})
+			if !bad {
+				r.OK("C15.9", fnName(f)+": sized fields are read with binary.Read / io.ReadFull only", f.Pos(), fmt.Sprintf("%d framed reader(s)", len(framed)))
+			}
+		}
+		if nFraming == 0 {
+			r.Unk("C15.9", "framing readers", token.NoPos, "", "no function that parses a stream with binary.Read / io.ReadFull found")
+		}
 	}
 
 	// ---- C15.3 freshness
